@@ -345,7 +345,7 @@ func genC12(dir, tier string, seed int64) {
 	r := rand.New(rand.NewSource(seed))
 	hdr := "From Coq Require Import List String ZArith.\nFrom V Require Import DType Case Decode CheckC12.\nImport ListNotations.\nOpen Scope Z_scope.\nDefinition cases : list pcase := ["
 	cwA := newCaseWriter(dir, "C12_decode", hdr, opFooter,
-		"onnx.TensorFromProto on generated TensorProtos: 11 element types x {typed field, raw little-endian bytes} x shapes of rank 0..4 (extents 1..3) x element bit patterns (extremes, negatives, NaN payloads incl. signalling, -0, random); payload length perturbed (short by a byte / an element, long by a byte / an element, empty); dims with a zero or negative entry or one entry off; every other data_type code 0..20 and 99 with each typed field or raw populated or nothing populated; NaN payloads compared bit for bit", false, 500)
+		"onnx.TensorFromProto on generated TensorProtos: 11 element types x {typed field, raw little-endian bytes} x shapes of rank 0..4 (extents 1..3) x element bit patterns (extremes, negatives, NaN payloads incl. signalling, -0, random); payload length perturbed (short by a byte / an element, long by a byte / an element, empty); dims with a zero or negative entry or one entry off; every other data_type code 0..22, 99, negative ones and the int32 extremes with each typed field or raw populated or nothing populated; NaN payloads compared bit for bit", false, 500)
 	cwB := newCaseWriter(dir, "C12_load", hdr, opFooter,
 		"the same protos as one of three initializers (first, middle or last; the others well-formed) of a model whose declared output is that initializer: the model is first built once with gonnx.NewModel(mp), which must leave the proto byte-identical; then NewModelFromBytes(proto.Marshal(mp)) and Run with no inputs; the same model declaring one of the well-formed initializers as its output must load and run exactly when this one does (reported as a panic-class outcome otherwise)", false, 500)
 	cwC := newCaseWriter(dir, "C12_constant", hdr, opFooter,
@@ -465,8 +465,25 @@ func genC12(dir, tier string, seed int64) {
 	for _, bs := range [][]byte{{0, 1, 2, 0x7f, 0x80, 0xff}, {0xff}, {0x80, 0}, {0xfe, 0x81, 0x40}} {
 		emit(&onnx.TensorProto{DataType: 9, Dims: []int64{int64(len(bs))}, RawData: bs}, "raw-bool-bytes")
 	}
+	// the data_location flag (EXTERNAL = 1) on inline payloads, well-formed and malformed: the library does
+	// not implement external storage; a flagged initializer is decoded like any other (or refused), never
+	// skipped
+	for _, tp := range []*onnx.TensorProto{
+		{DataType: 1, Dims: []int64{2}, FloatData: []float32{10, 20}},
+		{DataType: 1, Dims: []int64{2}, FloatData: []float32{10, 20, 30}},
+		{DataType: 7, Dims: []int64{1}, RawData: []byte{1, 0, 0, 0, 0, 0, 0, 0}},
+		{DataType: 7, Dims: []int64{1}, RawData: []byte{1, 0, 0}},
+		{DataType: 1, Dims: []int64{2}},
+		{DataType: 10, Dims: []int64{1}, RawData: []byte{0, 60}},
+	} {
+		tp.DataLocation = onnx.TensorProto_EXTERNAL
+		emit(tp, "data-location-external")
+		tp2 := proto.Clone(tp).(*onnx.TensorProto)
+		tp2.ExternalData = []*onnx.StringStringEntryProto{{Key: "location", Value: "weights.bin"}}
+		emit(tp2, "data-location-external")
+	}
 	// every other data_type code with each field populated / nothing populated
-	codes := []int32{0, 8, 10, 14, 15, 16, 17, 18, 19, 20, 99}
+	codes := []int32{0, 8, 10, 14, 15, 16, 17, 18, 19, 20, 21, 22, 99, -1, -7, math.MaxInt32, math.MinInt32}
 	for _, code := range codes {
 		for _, field := range []string{"none", "raw", "float", "int32", "int64", "double", "uint64"} {
 			tp := &onnx.TensorProto{DataType: code, Dims: []int64{2}}
